@@ -51,7 +51,7 @@ Proof. exact (@poll_fresh_exact V). Qed.
 (* `srv_after` really is the service component of the world after those events *)
 Theorem C11_instant : forall (mid : list (event V)) (w : world V) fl, wfl w = Some fl -> no_end mid -> Inv (wst w) ->
   wsv (run_w w mid) = srv_after (wsv w) mid.
-Proof. intros mid w fl F NE I. exact (proj1 (proj2 (proj2 (@run_mid V mid w fl F NE I)))). Qed.
+Proof. exact (@run_mid_srv V). Qed.
 
 (* a successful poll requested every live name of its snapshot (in some order) ... *)
 Theorem C11_requests_all : forall (w0 : world V) now mid,
